@@ -354,7 +354,8 @@ type mappingT struct {
 	secret         string
 	active         bool
 	revoked        bool
-	expired        int // 0 = never expires, 1 = expired an hour ago, 2 = expires in an hour
+	expired        int // 0 = never expires, 1 = expired an hour ago, 2 = expires in an hour, 3 = expOff seconds from now
+	expOff         int // with expired == 3: ExpiresAt = (the moment the request is sent) + expOff seconds (negative: past)
 }
 
 type caseT struct {
@@ -396,6 +397,14 @@ func b2s(b bool) string {
 	return "0"
 }
 
+// expTok: 0 | 1 | 2 | e<+-seconds>
+func expTok(m mappingT) string {
+	if m.expired == 3 {
+		return fmt.Sprintf("e%+d", m.expOff)
+	}
+	return strconv.Itoa(m.expired)
+}
+
 func (c *caseT) String() string {
 	var sb strings.Builder
 	fmt.Fprintf(&sb, "open pl %s maps %d", c.pl, len(c.maps))
@@ -404,7 +413,7 @@ func (c *caseT) String() string {
 		if m.active {
 			st = "a"
 		}
-		fmt.Fprintf(&sb, " %s %d %d %s %s %s %s", m.id, m.listen, m.target, dash(m.secret), st, b2s(m.revoked), strconv.Itoa(m.expired))
+		fmt.Fprintf(&sb, " %s %d %d %s %s %s %s", m.id, m.listen, m.target, dash(m.secret), st, b2s(m.revoked), expTok(m))
 	}
 	fmt.Fprintf(&sb, " conn %d %d", c.hs, c.cid)
 	if c.asserts {
@@ -462,7 +471,11 @@ func parseCase(s string) (c *caseT, err error) {
 		m.secret = undash(next())
 		m.active = next() == "a"
 		m.revoked = next() == "1"
-		m.expired = int(atoi(next()))
+		if et := next(); strings.HasPrefix(et, "e") {
+			m.expired, m.expOff = 3, int(atoi(et[1:]))
+		} else {
+			m.expired = int(atoi(et))
+		}
 		c.maps = append(c.maps, m)
 	}
 	expect("conn")
@@ -611,6 +624,9 @@ func toModel(m mappingT) *models.PortMapping {
 		pm.ExpiresAt = &t
 	case 2:
 		t := time.Now().Add(time.Hour)
+		pm.ExpiresAt = &t
+	case 3:
+		t := time.Now().Add(time.Duration(m.expOff) * time.Second)
 		pm.ExpiresAt = &t
 	}
 	return pm
@@ -1151,6 +1167,16 @@ func runCaseInner(c *caseT) string {
 		}
 	}
 
+	// expiry a few seconds around "now": stamp it as late as possible, right before the request is sent
+	for _, m := range c.maps {
+		if m.expired == 3 {
+			if err := w.mrepo.UpdatePortMapping(toModel(m)); err != nil {
+				return "setup-failed:update-mapping"
+			}
+			w.readBarrier(m.id)
+		}
+	}
+
 	// ---- the request under test
 	var r *peer
 	var err error
@@ -1534,6 +1560,65 @@ func zeroListenMatrix() []*caseT {
 	return out
 }
 
+// expiryMatrix: the mapping's ExpiresAt lies seconds before or after the moment of the TunnelOpen ("expired" is a
+// strict comparison with the clock, no grace period): -29 s, -5 s, -1 s must be refused on every credential path,
+// +2 s, +5 s, +29 s must still be served.  offset (6) x identity (3) x credential (3) x tunnel state (3).
+func expiryMatrix() []*caseT {
+	var out []*caseT
+	type ident struct {
+		hs  int
+		cid int64
+	}
+	ids := []ident{{1, 11}, {1, 22}, {1, 33}}
+	creds := [][3]string{{"M", "", ""}, {"M", "s3cretM", ""}, {"M", "wrong", ""}}
+	for _, off := range []int{-29, -5, -1, 2, 5, 29} {
+		for _, id := range ids {
+			for _, cr := range creds {
+				for _, ts := range []string{"none", "waiting", "remote"} {
+					m := mapM
+					m.expired, m.expOff = 3, off
+					c := &caseT{pl: "ok", hs: id.hs, cid: id.cid, rmid: cr[0], rsec: cr[1], rtok: cr[2],
+						maps: []mappingT{m, mapF}, ts: "none"}
+					switch ts {
+					case "waiting":
+						c.ts, c.tsMid = "bridge", "M"
+					case "remote":
+						c.ts, c.tsMid = "remote", "M"
+					}
+					out = append(out, c)
+				}
+			}
+		}
+	}
+	return out
+}
+
+// spellingMatrix: near misses of the right credential, on every run (not left to the random stream): a proper
+// prefix of the secret, a one-character secret, the secret extended, doubled, in another case, with one character
+// changed at the start / at the end; the mapping id in another case / extended.
+// spelling (9) x identity (listen, target) x tunnel state (3).
+func spellingMatrix() []*caseT {
+	var out []*caseT
+	sec := mapM.secret
+	creds := [][2]string{{"M", sec[:len(sec)-1]}, {"M", sec[:1]}, {"M", sec + "x"}, {"M", sec + sec}, {"M", strings.ToUpper(sec)},
+		{"M", "X" + sec[1:]}, {"M", sec[:len(sec)-1] + "X"}, {"m", sec}, {"MM", sec}}
+	for _, cr := range creds {
+		for _, cid := range []int64{11, 22} {
+			for _, ts := range []string{"none", "waiting", "remote"} {
+				c := &caseT{pl: "ok", hs: 1, cid: cid, rmid: cr[0], rsec: cr[1], maps: []mappingT{mapM, mapF}, ts: "none"}
+				switch ts {
+				case "waiting":
+					c.ts, c.tsMid = "bridge", "M"
+				case "remote":
+					c.ts, c.tsMid = "remote", "M"
+				}
+				out = append(out, c)
+			}
+		}
+	}
+	return out
+}
+
 // configMatrix: configurations and fault points of the cross-node path — this node without a routing table, the
 // other node unreachable (address lookup / dial fails after the ack), a waiting route past its own expiry time.
 func configMatrix() []*caseT {
@@ -1602,6 +1687,8 @@ func randomCases(r *vc.Rand, n int) []*caseT {
 				m.active = false
 			case 4:
 				m.expired = 2
+			case 5:
+				m.expired, m.expOff = 3, []int{-29, -5, -1, 2, 5, 29}[r.Intn(6)]
 			}
 			c.maps = append(c.maps, m)
 		}
@@ -1627,7 +1714,7 @@ func randomCases(r *vc.Rand, n int) []*caseT {
 			m := c.maps[r.Intn(len(c.maps))]
 			if r.Intn(6) != 0 {
 				for _, x := range c.maps {
-					if x.active && !x.revoked && x.expired != 1 {
+					if x.active && !x.revoked && (x.expired == 0 || x.expired == 2) {
 						m = x
 						break
 					}
@@ -1690,7 +1777,7 @@ func randomCases(r *vc.Rand, n int) []*caseT {
 				// a bridge can only be opened by the rightful listen client of a usable, listed mapping
 				c.late = ""
 				for _, x := range c.maps {
-					if x.active && !x.revoked && x.expired != 1 && x.listen != 0 && (x.id == c.lateMid || c.late == "") {
+					if x.active && !x.revoked && (x.expired == 0 || x.expired == 2) && x.listen != 0 && (x.id == c.lateMid || c.late == "") {
 						c.late, c.lateMid = kind, x.id
 					}
 				}
@@ -1807,6 +1894,16 @@ func main() {
 			lines = append(lines, c.String())
 		}
 		runAll(out, lines, "zero-listen-matrix")
+		lines = nil
+		for _, c := range expiryMatrix() {
+			lines = append(lines, c.String())
+		}
+		runAll(out, lines, "expiry-matrix")
+		lines = nil
+		for _, c := range spellingMatrix() {
+			lines = append(lines, c.String())
+		}
+		runAll(out, lines, "spelling-matrix")
 		runAll(out, []string{"e2e"}, "e2e")
 		runAll(out, []string{"rmw usage", "rmw usage-read1", "rmw usage-read2", "rmw stats", "rmw stats-read1", "rmw status", "rmw status-read1"}, "rmw")
 		n := 600
